@@ -636,6 +636,9 @@ func TestC07_EndToEndLiveness(t *testing.T) {
 		sc.YieldC = rapid.IntRange(0, 3).Draw(rt, "yieldc")
 		sc.YieldS = rapid.IntRange(0, 3).Draw(rt, "yields")
 		f := runC03(cfg, 1, []*chanScript{sc})
+		if f.key == "infra" {
+			ev.InfraSkip(rt, c07, "%s", f.msg)
+		}
 		if f.key != "" {
 			key := "e2e:" + f.key
 			ev.Violation(rt, c07, key, &c03case{Config: cfg, Conns: 1, Channels: []*chanScript{sc}, Failure: f.msg}, "%s", f.msg)
